@@ -9,6 +9,7 @@
 // A non-owning ArrayView made from an OwnedArray's storage is reported "dead" as soon as that
 // OwnedArray had any structural operation (whether std::vector really reallocated is unspecified and
 // not determined by the property); everything else about liveness is exact.
+#define VH_ALLOC_FAULTS
 #include "common.h"
 #include <array>
 #include <cstdint>
@@ -442,6 +443,21 @@ struct H {
         epoch[i] = ++clock;
       }
       return "ok";
+    }
+    if (op == "fa_assign_fail1" || op == "fa_assign_fail2") {
+      // FixedArray assignment during which the first (the element block) or the second (the shared_ptr control block)
+      // allocation fails: std::bad_alloc, and the array is still the valid array it was
+      if (!idx(arg(1), NW, i)) return "bad-op";
+      if (ws[i].kind != KFA) return "pre";
+      Src s = resolve(arg(2));
+      if (!s.ok) return "pre";
+      std::vector<T> tmp(s.ptr, s.ptr + s.cnt);
+      bool threw = false;
+      vh::failAllocIn = op.back() == '1' ? 1 : 2;
+      try { *ws[i].fa = tmp; } catch (const std::bad_alloc &) { threw = true; }
+      vh::failAllocIn = 0;
+      if (!threw) { epoch[i] = ++clock; return "nofail"; }
+      return "bad_alloc";
     }
     if (op == "oa_resize") {
       if (!idx(arg(1), NW, i)) return "bad-op";
